@@ -1018,6 +1018,60 @@ def gen_cycles_and_run(rng: Rng):
     return case, sc.out
 
 
+def gen_fixrace_and_run(rng: Rng):
+    """A FIXING countdown racing a lifecycle change: damage, `fix` (countdown c), after j <= c ticks the service is stopped /
+    paused / disabled / restarted / its node powered off / (control) the FTP client stopped / nothing; ticks through the end of
+    the countdown (a completing fix calls restore_backup()), a direct restore while halted, the halt undone, restore again.
+    Every lifecycle state x countdown offset is drawn over the runs (histogram `fixrace:`)."""
+    def tweak(case):
+        case["bkcfg"] = True
+        case["fix"] = rng.choice([0, 1, 2, 3, 3])
+        case["restart"] = rng.choice([0, 1, 2])
+        case["clients"][0]["pw"] = case["srv_pw"]
+    sc = _Script(rng, "fixrace", tweak)
+    case = sc.case
+    with instrumented(sc.rec):
+        w = World(case, sc.rec)
+        e = lambda op: sc.emit(w, op)   # noqa: E731
+        e(["tick"] if rng.chance(1, 2) else ["backup"])
+        e(["connect", 0])
+        for _ in range(rng.range(1, 3)):
+            act = [j for j, h in enumerate(sc.rec.handles) if h.is_active]
+            e(["hq", rng.choice(act), rng.choice(["DELETE", "DELETE", "ENCRYPT"])] if act else ["fcor"])
+            if rng.chance(1, 3):
+                e(["svc", "compromise"])
+            e(["svc", "fix"])
+            j = rng.below(case["fix"] + 1)
+            for _ in range(j):
+                e(["tick"])
+            halt = rng.choice(["stop", "pause", "disable", "restart", "poweroff", "ftpcstop", "none", "stop", "pause"])
+            case.setdefault("fixrace", []).append([halt, j, case["fix"]])
+            undo = []
+            if halt in ("stop", "pause", "disable", "restart"):
+                e(["svc", halt])
+                undo = {"stop": [["svc", "start"]], "pause": [["svc", "resume"]], "disable": [["svc", "enable"], ["svc", "start"]],
+                        "restart": [["tick"]] * (case["restart"] + 1)}[halt]
+            elif halt == "poweroff":
+                e(["pow", 0, False])
+                undo = [["tick"]] * case["durs"]["sDown"] + [["pow", 0, True]] + [["tick"]] * (case["durs"]["sUp"] + 1)
+            elif halt == "ftpcstop":
+                e(["adm", "ftpc", "stop"])
+                undo = [["adm", "ftpc", "start"]]
+            for _ in range(case["fix"] - j + 1 + rng.below(2)):
+                e(["tick"])
+                if act and rng.chance(1, 3):
+                    e(["hq", rng.choice(act), "SELECT"])
+            e(["restore"])
+            for op in undo:
+                e(list(op))
+            if act:
+                e(["hq", rng.choice(act), "SELECT"])
+            e(["restore"])
+            if act:
+                e(["hq", rng.choice(act), "SELECT"])
+    return case, sc.out
+
+
 def nontrivial(model: List[str]) -> bool:
     """A trace is non-trivial when it exercised something beyond plain successful connects/queries."""
     joined = "\n".join(model)
